@@ -21,12 +21,15 @@ import (
 
 // ---------- C15: name module ----------
 //
-// Three streams:
-//   1. histories over a small name tree through the real message handlers, observing after every
-//      step GetRecordByName / ResolvesTo / ReverseLookup for the whole universe;
+// Streams:
+//   1. histories over a name tree through the real message path (ValidateBasic + message router) for
+//      the four name messages and MsgUpdateParams, plus Keeper.InitGenesis calls, observing after
+//      every step GetRecordByName / ResolvesTo / ReverseLookup / the Resolve query for the whole
+//      universe and the Params query; at the end of a history paged ReverseLookup walks and the
+//      upper-case spelling of an address;
 //   2. pair search: every name over a 3-letter alphabet within the limits, grouped by the real
-//      GetNameKeyPrefix;
-//   3. Normalize / GetNameKeyPrefix on raw (mixed case, padded, malformed, uuid) inputs.
+//      GetNameKeyPrefix, and an exhaustive enumeration over {a,b,1,2} with 1-4 segments;
+//   3. Normalize / GetNameKeyPrefix on raw (mixed case, padded, malformed, uuid, non-ASCII) inputs.
 
 type c15Params struct{ min, max, levels uint32 }
 
@@ -56,8 +59,8 @@ func c15Key(name string) []byte {
 	return k
 }
 
-// revcat is the pre-image the key function hashes (only used to classify collisions for the
-// description of a case; the Coq side recomputes it from the model).
+// revcat is the pre-image the key function hashes (used to classify collisions on the Go side;
+// the Coq side recomputes it from the model for every emitted pair).
 func c15Revcat(name string) string {
 	segs := strings.Split(name, ".")
 	var sb strings.Builder
@@ -71,11 +74,13 @@ type c15Obs struct {
 	term      string
 	anomalies [][2]string // (queried, stored) where the lookup returned a record of another name
 	recs      map[string]*nametypes.NameRecord
+	listed    map[int][]string
+	params    nametypes.Params
 }
 
 func (e *c15Env) observe(t *testing.T, ctx sdk.Context, names []string) c15Obs {
-	o := c15Obs{recs: map[string]*nametypes.NameRecord{}}
-	var recs, res, rev []string
+	o := c15Obs{recs: map[string]*nametypes.NameRecord{}, listed: map[int][]string{}}
+	var recs, res, rev, qry []string
 	for _, n := range names {
 		var rec *nametypes.NameRecord
 		err := try(func() error {
@@ -86,7 +91,7 @@ func (e *c15Env) observe(t *testing.T, ctx sdk.Context, names []string) c15Obs {
 		if err != nil || rec == nil {
 			recs = append(recs, "None")
 		} else {
-			recs = append(recs, fmt.Sprintf("(Some (%s, %d%%N, %s))", coqStr(rec.Name), e.id(rec.Address), coqBool(rec.Restricted)))
+			recs = append(recs, fmt.Sprintf("(Some (%s, %d%%N, %s))", c15Str(rec.Name), e.id(rec.Address), coqBool(rec.Restricted)))
 			o.recs[n] = rec
 			if rec.Name != n {
 				o.anomalies = append(o.anomalies, [2]string{n, rec.Name})
@@ -97,14 +102,27 @@ func (e *c15Env) observe(t *testing.T, ctx sdk.Context, names []string) c15Obs {
 			row = append(row, coqBool(e.app.NameKeeper.ResolvesTo(ctx, n, a)))
 		}
 		res = append(res, coqList(row))
+		// the Resolve gRPC query (normalises, then looks the record up)
+		var qr *nametypes.QueryResolveResponse
+		qerr := try(func() error {
+			var e2 error
+			qr, e2 = e.app.NameKeeper.Resolve(ctx, &nametypes.QueryResolveRequest{Name: n})
+			return e2
+		})
+		if qerr != nil || qr == nil {
+			qry = append(qry, "None")
+		} else {
+			qry = append(qry, fmt.Sprintf("(Some (%d%%N, %s))", e.id(qr.Address), coqBool(qr.Restricted)))
+		}
 	}
-	for _, a := range e.addrs {
+	for i, a := range e.addrs {
 		resp, err := e.app.NameKeeper.ReverseLookup(ctx, &nametypes.QueryReverseLookupRequest{Address: a.String(), Pagination: &query.PageRequest{Limit: 10000}})
 		if err != nil {
 			t.Fatalf("ReverseLookup: %v", err)
 		}
 		listed := append([]string{}, resp.Name...)
 		sort.Strings(listed)
+		o.listed[i] = listed
 		// the keeper-level listing must say the same as the query
 		krecs, err := e.app.NameKeeper.GetRecordsByAddress(ctx, a)
 		if err != nil {
@@ -116,68 +134,121 @@ func (e *c15Env) observe(t *testing.T, ctx sdk.Context, names []string) c15Obs {
 		}
 		sort.Strings(kl)
 		if strings.Join(kl, "|") != strings.Join(listed, "|") {
-			t.Errorf("ReverseLookup %v and GetRecordsByAddress %v differ for %s", listed, kl, a)
+			// reported through the listing itself: make the query's listing carry the difference
+			listed = append(listed, "<GetRecordsByAddress differs: "+strings.Join(kl, ",")+">")
 		}
-		var ls []string
-		for _, n := range listed {
-			ls = append(ls, coqStr(n))
-		}
-		rev = append(rev, coqList(ls))
+		rev = append(rev, coqList(mapStr(listed, c15Str)))
 	}
-	o.term = "(" + coqList(recs) + ", " + coqList(res) + ", " + coqList(rev) + ")"
+	pr, err := e.app.NameKeeper.Params(ctx, &nametypes.QueryParamsRequest{})
+	if err != nil {
+		t.Fatalf("Params: %v", err)
+	}
+	o.params = pr.Params
+	par := "(" + c15Params{pr.Params.MinSegmentLength, pr.Params.MaxSegmentLength, pr.Params.MaxNameLevels}.coq() + ", " + coqBool(pr.Params.AllowUnrestrictedNames) + ")"
+	o.term = "((" + coqList(recs) + ", " + coqList(res) + ", " + coqList(rev) + "), " + coqList(qry) + ", " + par + ")"
 	return o
 }
 
+type c15Binding struct {
+	name  string
+	owner int
+	restr bool
+}
+
 type c15Op struct {
-	kind   string // root, bind, modify, delete
+	kind   string // root, bind, modify, delete, params, genesis
 	signer int
-	name   string // root/modify/delete: the name as given; bind: the child segment
+	name   string // root/modify/delete: the name as given; bind: the record name
 	parent string // bind only
 	owner  int
 	restr  bool
+	upper  bool // spell the record / parent address in upper-case bech32 (same account)
+	p      c15Params
+	allow  bool
+	binds  []c15Binding
 }
 
 func (o c15Op) coq() string {
 	switch o.kind {
 	case "root":
-		return fmt.Sprintf("OpCreateRoot %d%%N %s %d%%N %s", o.signer, c15Str(o.name), o.owner, coqBool(o.restr))
+		return fmt.Sprintf("MOp (OpCreateRoot %d%%N %s %d%%N %s)", o.signer, c15Str(o.name), o.owner, coqBool(o.restr))
 	case "bind":
-		return fmt.Sprintf("OpBind %s %d%%N %s %d%%N %s", c15Str(o.parent), o.signer, c15Str(o.name), o.owner, coqBool(o.restr))
+		return fmt.Sprintf("MOp (OpBind %s %d%%N %s %d%%N %s)", c15Str(o.parent), o.signer, c15Str(o.name), o.owner, coqBool(o.restr))
 	case "modify":
-		return fmt.Sprintf("OpModify %d%%N %s %d%%N %s", o.signer, c15Str(o.name), o.owner, coqBool(o.restr))
+		return fmt.Sprintf("MOp (OpModify %d%%N %s %d%%N %s)", o.signer, c15Str(o.name), o.owner, coqBool(o.restr))
+	case "delete":
+		return fmt.Sprintf("MOp (OpDelete %s %d%%N)", c15Str(o.name), o.signer)
+	case "params":
+		return fmt.Sprintf("MParams %d%%N %s %s", o.signer, o.p.coq(), coqBool(o.allow))
 	default:
-		return fmt.Sprintf("OpDelete %s %d%%N", c15Str(o.name), o.signer)
+		var bs []string
+		for _, b := range o.binds {
+			bs = append(bs, fmt.Sprintf("(%s, %d%%N, %s)", c15Str(b.name), b.owner, coqBool(b.restr)))
+		}
+		return fmt.Sprintf("MGenesis %s %s %s", o.p.coq(), coqBool(o.allow), coqList(bs))
 	}
+}
+
+func (e *c15Env) spell(i int, upper bool) string {
+	s := e.addrs[i].String()
+	if upper {
+		return strings.ToUpper(s)
+	}
+	return s
 }
 
 func (e *c15Env) msg(o c15Op) sdk.Msg {
 	switch o.kind {
 	case "root":
-		return nametypes.NewMsgCreateRootNameRequest(e.addrs[o.signer].String(), o.name, e.addrs[o.owner].String(), o.restr)
+		return nametypes.NewMsgCreateRootNameRequest(e.addrs[o.signer].String(), o.name, e.spell(o.owner, o.upper), o.restr)
 	case "bind":
 		return nametypes.NewMsgBindNameRequest(
-			nametypes.NameRecord{Name: o.name, Address: e.addrs[o.owner].String(), Restricted: o.restr},
-			nametypes.NameRecord{Name: o.parent, Address: e.addrs[o.signer].String()})
+			nametypes.NameRecord{Name: o.name, Address: e.spell(o.owner, o.upper), Restricted: o.restr},
+			nametypes.NameRecord{Name: o.parent, Address: e.spell(o.signer, o.upper)})
 	case "modify":
-		return nametypes.NewMsgModifyNameRequest(e.addrs[o.signer].String(), o.name, e.addrs[o.owner], o.restr)
-	default:
-		return nametypes.NewMsgDeleteNameRequest(nametypes.NameRecord{Name: o.name, Address: e.addrs[o.signer].String()})
+		m := nametypes.NewMsgModifyNameRequest(e.addrs[o.signer].String(), o.name, e.addrs[o.owner], o.restr)
+		m.Record.Address = e.spell(o.owner, o.upper)
+		return m
+	case "delete":
+		return nametypes.NewMsgDeleteNameRequest(nametypes.NameRecord{Name: o.name, Address: e.spell(o.signer, o.upper)})
+	case "params":
+		return nametypes.NewMsgUpdateParamsRequest(o.p.max, o.p.min, o.p.levels, o.allow, e.spell(o.signer, o.upper))
 	}
+	return nil
 }
 
-// exec runs the message through the real router on a cache of ctx; the cache is written only
-// when the handler succeeds (a failed tx is rolled back).
+// exec runs the message the way a transaction does — ValidateBasic (baseapp runs it for every
+// message that has one), then the handler registered in the message router — on a cache of ctx;
+// the cache is written only when the handler succeeds (a failed tx is rolled back).  An
+// InitGenesis call is run the same way (a panic voids the import).
 func (e *c15Env) exec(ctx sdk.Context, o c15Op) bool {
 	cctx, write := ctx.CacheContext()
-	m := e.msg(o)
-	err := try(func() error {
-		h := e.app.MsgServiceRouter().Handler(m)
-		if h == nil {
-			return fmt.Errorf("no handler")
+	var err error
+	if o.kind == "genesis" {
+		gs := nametypes.GenesisState{Params: nametypes.NewParams(o.p.max, o.p.min, o.p.levels, o.allow)}
+		for _, b := range o.binds {
+			gs.Bindings = append(gs.Bindings, nametypes.NameRecord{Name: b.name, Address: e.addrs[b.owner].String(), Restricted: b.restr})
 		}
-		_, e2 := h(cctx, m)
-		return e2
-	})
+		err = try(func() error {
+			e.app.NameKeeper.InitGenesis(cctx, gs)
+			return nil
+		})
+	} else {
+		m := e.msg(o)
+		err = try(func() error {
+			if vb, ok := m.(sdk.HasValidateBasic); ok {
+				if e1 := vb.ValidateBasic(); e1 != nil {
+					return e1
+				}
+			}
+			h := e.app.MsgServiceRouter().Handler(m)
+			if h == nil {
+				return fmt.Errorf("no handler")
+			}
+			_, e2 := h(cctx, m)
+			return e2
+		})
+	}
 	if err == nil {
 		write()
 	}
@@ -195,7 +266,8 @@ func c15Seg(r *rand.Rand, alpha string, lo, hi int) string {
 	return string(b)
 }
 
-// c15Tree builds a name tree: roots, children, grandchildren (parents listed before children).
+// c15Tree builds a parent-closed name tree: roots, children, grandchildren, a few
+// great-grandchildren (parents listed before children).
 func c15Tree(r *rand.Rand) []string {
 	const alpha = "abcde12"
 	seen := map[string]bool{}
@@ -216,7 +288,7 @@ func c15Tree(r *rand.Rand) []string {
 		add(s)
 	}
 	roots := append([]string{}, names...)
-	var kids []string
+	var kids, grand []string
 	for _, rt := range roots {
 		for k := 0; k < 2+r.Intn(2); k++ {
 			c := c15Seg(r, alpha, 2, 4) + "." + rt
@@ -227,7 +299,15 @@ func c15Tree(r *rand.Rand) []string {
 	}
 	for _, kd := range kids {
 		for k := 0; k < r.Intn(3); k++ {
-			add(c15Seg(r, alpha, 2, 3) + "." + kd)
+			g := c15Seg(r, alpha, 2, 3) + "." + kd
+			if add(g) {
+				grand = append(grand, g)
+			}
+		}
+	}
+	for _, g := range grand {
+		if r.Intn(3) == 0 {
+			add(c15Seg(r, alpha, 2, 3) + "." + g)
 		}
 	}
 	return names
@@ -270,6 +350,15 @@ func c15Parent(n string) (child, parent string) {
 	return n[:i], n[i+1:]
 }
 
+// c15Split2 splits a name with at least three segments into a two-level record name and the rest.
+func c15Split2(n string) (rec, parent string, ok bool) {
+	segs := strings.Split(n, ".")
+	if len(segs) < 3 {
+		return "", "", false
+	}
+	return segs[0] + "." + segs[1], strings.Join(segs[2:], "."), true
+}
+
 // c15Raw occasionally dresses a canonical name up (padding, capitals) — the handlers normalise.
 func c15Raw(r *rand.Rand, n string) string {
 	switch r.Intn(14) {
@@ -285,8 +374,18 @@ func c15Raw(r *rand.Rand, n string) string {
 	return n
 }
 
+var c15ParamChoices = []c15Params{{2, 32, 16}, {2, 3, 2}, {3, 32, 16}, {2, 32, 2}, {1, 4, 3}, {2, 32, 16}, {2, 4, 3}, {5, 3, 16}, {2, 32, 0}, {2, 32, 16}}
+
+type c15Counters struct {
+	gov, dotted, dottedImpliedExists, dottedImpliedRestrictedForeign, multiLevelParent int64
+	deleteWithChildren, upper, genesisOK, genesisPanic, paramsOK                       int64
+	frozen                                                                             int64
+}
+
+var w15 c15Counters
+
 // nextOp proposes the next message from what the real keeper currently stores.
-func (e *c15Env) nextOp(r *rand.Rand, names []string, cur c15Obs) c15Op {
+func (e *c15Env) nextOp(r *rand.Rand, ctx sdk.Context, names []string, cur c15Obs) c15Op {
 	users := len(e.addrs) - 1
 	user := func() int { return 1 + r.Intn(users) }
 	otherThan := func(x int) int {
@@ -296,6 +395,10 @@ func (e *c15Env) nextOp(r *rand.Rand, names []string, cur c15Obs) c15Op {
 				return u
 			}
 		}
+	}
+	validNow := func(n string) bool {
+		nn, err := e.app.NameKeeper.Normalize(ctx, n)
+		return err == nil && nn == n
 	}
 	var bound, unbound []string
 	for _, n := range names {
@@ -307,15 +410,63 @@ func (e *c15Env) nextOp(r *rand.Rand, names []string, cur c15Obs) c15Op {
 	}
 	ownerOf := func(n string) int {
 		if rec := cur.recs[n]; rec != nil {
-			return e.id(rec.Address)
+			if i := e.id(rec.Address); i != 99 {
+				return i
+			}
 		}
 		return user()
 	}
 	pick := func(l []string) string { return l[r.Intn(len(l))] }
-	honest := r.Intn(100) < 62
-	for tries := 0; tries < 50; tries++ {
+	curP := c15Params{cur.params.MinSegmentLength, cur.params.MaxSegmentLength, cur.params.MaxNameLevels}
+	honest := r.Intn(100) < 66
+	for tries := 0; tries < 60; tries++ {
 		switch k := r.Intn(100); {
-		case k < 12: // root creation
+		case k < 4: // MsgUpdateParams
+			signer := 0
+			if !honest && r.Intn(2) == 0 {
+				signer = user()
+			}
+			p := c15ParamChoices[r.Intn(len(c15ParamChoices))]
+			if honest && r.Intn(3) != 0 {
+				p = c15ParamChoices[0] // mostly back to the defaults, so that histories stay lively
+			}
+			return c15Op{kind: "params", signer: signer, p: p, allow: r.Intn(2) == 0, upper: r.Intn(4) == 0}
+		case k < 7: // InitGenesis on top of the current store
+			op := c15Op{kind: "genesis", p: curP, allow: cur.params.AllowUnrestrictedNames}
+			if r.Intn(4) == 0 {
+				op.p = c15ParamChoices[r.Intn(len(c15ParamChoices))]
+				op.allow = r.Intn(2) == 0
+			}
+			src := unbound
+			if !honest || len(src) == 0 {
+				src = names
+			}
+			nb := 1 + r.Intn(4)
+			perm := r.Perm(len(src))
+			for i := 0; i < nb && i < len(src); i++ {
+				n := src[perm[i]]
+				if honest && !validNow(n) && op.p == curP {
+					continue
+				}
+				b := c15Binding{name: n, owner: user(), restr: r.Intn(2) == 0}
+				switch r.Intn(12) {
+				case 0:
+					b.name = " " + strings.ToUpper(n[:1]) + n[1:] + " " // un-normalised spelling
+				case 1:
+					b.name = strings.ReplaceAll(n, ".", " .")
+				}
+				op.binds = append(op.binds, b)
+			}
+			if len(op.binds) > 0 && !honest {
+				switch r.Intn(4) {
+				case 0: // the same name twice
+					op.binds = append(op.binds, c15Binding{name: strings.ToUpper(op.binds[0].name), owner: user(), restr: false})
+				case 1: // an invalid name
+					op.binds = append(op.binds, c15Binding{name: "a..b", owner: user()})
+				}
+			}
+			return op
+		case k < 17: // root creation
 			var roots []string
 			for _, n := range names {
 				if !strings.Contains(n, ".") {
@@ -330,8 +481,8 @@ func (e *c15Env) nextOp(r *rand.Rand, names []string, cur c15Obs) c15Op {
 			if !honest && r.Intn(2) == 0 {
 				signer = user()
 			}
-			return c15Op{kind: "root", signer: signer, name: c15Raw(r, n), owner: user(), restr: r.Intn(2) == 0}
-		case k < 52: // bind
+			return c15Op{kind: "root", signer: signer, name: c15Raw(r, n), owner: user(), restr: r.Intn(2) == 0, upper: r.Intn(8) == 0}
+		case k < 55: // bind
 			var cands []string
 			src := unbound
 			if !honest && r.Intn(3) == 0 {
@@ -339,7 +490,7 @@ func (e *c15Env) nextOp(r *rand.Rand, names []string, cur c15Obs) c15Op {
 			}
 			for _, n := range src {
 				if _, p := c15Parent(n); p != "" {
-					if honest && cur.recs[p] == nil {
+					if honest && (cur.recs[p] == nil || !validNow(n)) {
 						continue
 					}
 					cands = append(cands, n)
@@ -348,7 +499,8 @@ func (e *c15Env) nextOp(r *rand.Rand, names []string, cur c15Obs) c15Op {
 			if len(cands) == 0 {
 				continue
 			}
-			child, parent := c15Parent(pick(cands))
+			full := pick(cands)
+			child, parent := c15Parent(full)
 			signer := ownerOf(parent)
 			if !honest || r.Intn(5) == 0 {
 				signer = user() // a stranger: accepted only under an unrestricted parent
@@ -363,7 +515,10 @@ func (e *c15Env) nextOp(r *rand.Rand, names []string, cur c15Obs) c15Op {
 			if owner == 0 {
 				owner = user()
 			}
-			op := c15Op{kind: "bind", signer: signer, name: child, parent: parent, owner: owner, restr: r.Intn(2) == 0}
+			op := c15Op{kind: "bind", signer: signer, name: child, parent: parent, owner: owner, restr: r.Intn(2) == 0, upper: r.Intn(8) == 0}
+			if strings.Contains(parent, ".") {
+				w15.multiLevelParent++
+			}
 			switch r.Intn(30) {
 			case 0:
 				op.name = strings.ToUpper(child)
@@ -374,12 +529,50 @@ func (e *c15Env) nextOp(r *rand.Rand, names []string, cur c15Obs) c15Op {
 			case 3:
 				op.name = child + "." + child
 			case 4:
-				op.name = child[:1]
+				op.name = child[:1] // too short (unless the limits in force allow one character: then an illegal one)
+				if curP.min <= 1 {
+					op.name = "_"
+				}
 			case 5:
 				op.name = " "
 			}
+			// a record name that spans two levels: <seg>.<seg> under the grand parent.  The
+			// message's parent and the direct parent of the resulting name differ; the signer
+			// is chosen to be entitled with respect to the MESSAGE's parent (its owner, or
+			// anybody when it is unrestricted), whatever the implied parent says.
+			if r.Intn(7) == 0 {
+				var deep []string
+				for _, n := range names {
+					if _, _, ok := c15Split2(n); ok && (cur.recs[n] == nil || r.Intn(4) == 0) {
+						deep = append(deep, n)
+					}
+				}
+				if len(deep) > 0 {
+					n := pick(deep)
+					rec, gp, _ := c15Split2(n)
+					op.name, op.parent = rec, gp
+					_, implied := c15Parent(n)
+					w15.dotted++
+					if gprec := cur.recs[gp]; gprec != nil {
+						op.signer = ownerOf(gp)
+						if !gprec.Restricted && r.Intn(2) == 0 {
+							op.signer = user()
+						}
+						op.owner = op.signer
+						if op.owner == 0 {
+							op.owner = user()
+						}
+					}
+					if irec := cur.recs[implied]; irec != nil {
+						w15.dottedImpliedExists++
+						if irec.Restricted && e.id(irec.Address) != op.signer && cur.recs[gp] != nil {
+							w15.dottedImpliedRestrictedForeign++
+						}
+					}
+				}
+			}
 			return op
-		case k < 80: // modify
+		case k < 82: // modify
 			if len(bound) == 0 && honest {
 				continue
 			}
@@ -403,7 +596,7 @@ func (e *c15Env) nextOp(r *rand.Rand, names []string, cur c15Obs) c15Op {
 			if rec := cur.recs[n]; rec != nil && r.Intn(2) == 0 {
 				restr = !rec.Restricted
 			}
-			return c15Op{kind: "modify", signer: signer, name: c15Raw(r, n), owner: newOwner, restr: restr}
+			return c15Op{kind: "modify", signer: signer, name: c15Raw(r, n), owner: newOwner, restr: restr, upper: r.Intn(8) == 0}
 		default: // delete
 			if len(bound) == 0 && honest {
 				continue
@@ -418,21 +611,67 @@ func (e *c15Env) nextOp(r *rand.Rand, names []string, cur c15Obs) c15Op {
 			}
 			if r.Intn(7) == 0 {
 				signer = 0 // the governance authority may modify a name but not delete it
-				w15gov++
+				w15.gov++
 			}
-			return c15Op{kind: "delete", signer: signer, name: c15Raw(r, n)}
+			return c15Op{kind: "delete", signer: signer, name: c15Raw(r, n), upper: r.Intn(8) == 0}
 		}
 	}
 	return c15Op{kind: "root", signer: 0, name: names[0], owner: 1, restr: false}
 }
-
-var w15gov int64 // delete attempts signed by the governance authority
 
 // addr32N is a 32-byte account address (contract / group / derived addresses have this length).
 func addr32N(n int) sdk.AccAddress {
 	b := make([]byte, 32)
 	copy(b, fmt.Sprintf("verifaddr32_%09d_long_address", n))
 	return sdk.AccAddress(b)
+}
+
+// addr32Ext is a 32-byte address whose first 20 bytes are those of the 20-byte address a.
+func addr32Ext(a sdk.AccAddress) sdk.AccAddress {
+	b := make([]byte, 32)
+	copy(b, a)
+	copy(b[20:], "_extension__")
+	return sdk.AccAddress(b)
+}
+
+// walk pages through ReverseLookup: mode 0 next keys, 1 offsets, 2 next keys reverse, 3 offsets
+// reverse.  Returns the pages and the total of the first page (requested with count_total).
+func (e *c15Env) walk(ctx sdk.Context, addr string, limit uint64, mode int) (pages [][]string, total uint64) {
+	req := &query.PageRequest{Limit: limit, CountTotal: true, Reverse: mode >= 2}
+	for i := 0; i < 200; i++ {
+		var resp *nametypes.QueryReverseLookupResponse
+		err := try(func() error {
+			var e2 error
+			resp, e2 = e.app.NameKeeper.ReverseLookup(ctx, &nametypes.QueryReverseLookupRequest{Address: addr, Pagination: req})
+			return e2
+		})
+		if err != nil || resp == nil {
+			pages = append(pages, []string{"<error>"})
+			return pages, total
+		}
+		if i == 0 && resp.Pagination != nil {
+			total = resp.Pagination.Total
+		}
+		pages = append(pages, append([]string{}, resp.Name...))
+		if resp.Pagination == nil || len(resp.Pagination.NextKey) == 0 {
+			return pages, total
+		}
+		if mode == 0 || mode == 2 {
+			req = &query.PageRequest{Key: resp.Pagination.NextKey, Limit: limit, Reverse: mode >= 2}
+		} else {
+			req = &query.PageRequest{Offset: uint64(i+1) * limit, Limit: limit, Reverse: mode >= 2}
+		}
+	}
+	pages = append(pages, []string{"<too many pages>"})
+	return pages, total
+}
+
+func c15Pages(pages [][]string) string {
+	var ps []string
+	for _, p := range pages {
+		ps = append(ps, coqList(mapStr(p, c15Str)))
+	}
+	return coqList(ps)
 }
 
 func TestC15(t *testing.T) {
@@ -445,7 +684,12 @@ func TestC15(t *testing.T) {
 	if govAddr.String() != app.NameKeeper.GetAuthority() {
 		t.Fatalf("authority is %s, expected the gov module account", app.NameKeeper.GetAuthority())
 	}
-	env := &c15Env{app: app, addrs: []sdk.AccAddress{govAddr, addrN(1), addrN(2), addrN(3), addr32N(4), addr32N(5)}}
+	// users 1..3 have 20-byte addresses, 4 and 5 32-byte ones; the bytes of user 1 are a prefix of
+	// those of user 4 (the index key must keep them apart by its length byte)
+	env := &c15Env{app: app, addrs: []sdk.AccAddress{govAddr, addrN(1), addrN(2), addrN(3), addr32Ext(addrN(1)), addr32N(5)}}
+	if !bytes.HasPrefix(env.addrs[4], env.addrs[1]) {
+		t.Fatalf("address 4 does not extend address 1")
+	}
 	// the governance module account must exist, else a delete signed by it fails only in PurgeAttribute
 	app.AccountKeeper.GetModuleAccount(baseCtx, govtypes.ModuleName)
 	for _, a := range env.addrs[1:] {
@@ -481,21 +725,22 @@ func TestC15(t *testing.T) {
 		addrIDs = append(addrIDs, fmt.Sprintf("%d%%N", i))
 	}
 	// ---------- 1. histories ----------
-	nHist := scale(160, 3000)
+	nHist := scale(170, 2000)
 	steps := scale(30, 45)
 	var accepted, total int64
 	for h := 0; h < nHist; h++ {
 		ctx, _ := baseCtx.CacheContext()
 		p := defP
-		if h%5 == 4 { // tight limits: some universe names become invalid and must be rejected
+		if h%5 == 4 { // start under tight limits: some universe names are invalid until the limits are relaxed
 			p = c15Params{2, 3, 2}
 			if h%10 == 9 {
 				p = c15Params{3, 32, 16}
 			}
-			np := kp
-			np.MinSegmentLength, np.MaxSegmentLength, np.MaxNameLevels = p.min, p.max, p.levels
-			app.NameKeeper.SetParams(ctx, np)
 		}
+		allow0 := h%3 != 0
+		np := kp
+		np.MinSegmentLength, np.MaxSegmentLength, np.MaxNameLevels, np.AllowUnrestrictedNames = p.min, p.max, p.levels, allow0
+		app.NameKeeper.SetParams(ctx, np)
 		colliding := h%8 == 3
 		var names []string
 		if colliding {
@@ -513,16 +758,7 @@ func TestC15(t *testing.T) {
 				w.Count("universe_regenerated_because_of_key_collision")
 			}
 		}
-		// only names that are valid under the history's parameters are observed
-		var uni []string
-		for _, n := range names {
-			if nn, err := app.NameKeeper.Normalize(ctx, n); err == nil && nn == n {
-				uni = append(uni, n)
-			}
-		}
-		if len(uni) == 0 {
-			continue
-		}
+		uni := names
 		cur := env.observe(t, ctx, uni)
 		o0 := cur.term
 		var stepTerms []string
@@ -542,29 +778,108 @@ func TestC15(t *testing.T) {
 				{kind: "bind", signer: 3, name: c2, parent: p2, owner: 3, restr: false},
 				{kind: "modify", signer: 1, name: names[3], owner: 2, restr: false},
 			}
+		} else if h%6 == 1 {
+			// a fresh chain: the first thing that happens is a genesis import (parents before
+			// children, plus one orphan whose parent is not imported, plus one padded spelling)
+			op := c15Op{kind: "genesis", p: p, allow: allow0}
+			for i, n := range names {
+				if i%3 == 2 {
+					continue
+				}
+				nm := n
+				if i == 1 {
+					nm = " " + strings.ToUpper(n) + "  "
+				}
+				op.binds = append(op.binds, c15Binding{name: nm, owner: 1 + r.Intn(len(env.addrs)-1), restr: r.Intn(2) == 0})
+			}
+			script = []c15Op{op}
+		} else if h%6 == 2 {
+			// the seeded shape of C15-E as a directed prelude: restricted child of an unrestricted
+			// root, owned by user 2; user 3 then names the root as parent and "<x>.<child>" as record
+			var deep string
+			for _, n := range names {
+				if _, _, ok := c15Split2(n); ok {
+					deep = n
+					break
+				}
+			}
+			if deep != "" {
+				rec, gp, _ := c15Split2(deep)
+				_, implied := c15Parent(deep)
+				script = []c15Op{
+					{kind: "params", signer: 0, p: defP, allow: allow0},
+					{kind: "root", signer: 0, name: implied, owner: 2, restr: true},
+					{kind: "modify", signer: 0, name: gp, owner: 1, restr: false},
+					{kind: "bind", signer: 3, name: rec, parent: gp, owner: 3, restr: false},
+					{kind: "bind", signer: 2, name: rec, parent: gp, owner: 2, restr: false},
+				}
+				w15.dotted += 2
+				w15.dottedImpliedExists += 2
+				w15.dottedImpliedRestrictedForeign++
+			}
 		}
 		for s := 0; s < steps; s++ {
 			var op c15Op
 			if s < len(script) {
 				op = script[s]
 			} else {
-				op = env.nextOp(r, names, cur)
+				op = env.nextOp(r, ctx, names, cur)
 			}
 			var prevOwner *nametypes.NameRecord
+			hadChildren := false
 			if op.kind == "modify" {
 				prevOwner = cur.recs[nametypes.NormalizeName(op.name)]
+			}
+			if op.kind == "delete" {
+				nn := nametypes.NormalizeName(op.name)
+				for _, m := range names {
+					if _, pm := c15Parent(m); pm == nn && cur.recs[m] != nil {
+						hadChildren = true
+					}
+				}
 			}
 			ok := env.exec(ctx, op)
 			if ok && prevOwner != nil {
 				if old := env.id(prevOwner.Address); old < len(env.addrs) && len(env.addrs[old]) != len(env.addrs[op.owner]) {
 					w.Count("modify_accepted_between_20_and_32_byte_owners")
 				}
+				if old := env.id(prevOwner.Address); (old == 1 && op.owner == 4) || (old == 4 && op.owner == 1) {
+					w.Count("modify_accepted_between_prefix_related_owners")
+				}
+			}
+			if ok && hadChildren {
+				w15.deleteWithChildren++
+			}
+			if ok && op.upper {
+				w15.upper++
+			}
+			if op.kind == "genesis" {
+				if ok {
+					w15.genesisOK++
+				} else {
+					w15.genesisPanic++
+				}
+			}
+			if op.kind == "params" && ok {
+				w15.paramsOK++
 			}
 			cur = env.observe(t, ctx, uni)
 			stepTerms = append(stepTerms, "("+op.coq()+", "+coqBool(ok)+", "+cur.term+")")
 			d := desc{"op": op.kind, "signer": op.signer, "name": op.name, "owner": op.owner, "restricted": op.restr, "accepted": ok}
-			if op.kind == "bind" {
+			switch op.kind {
+			case "bind":
 				d["parent"] = op.parent
+			case "params":
+				d = desc{"op": op.kind, "signer": op.signer, "params": []uint32{op.p.min, op.p.max, op.p.levels}, "allow": op.allow, "accepted": ok}
+			case "genesis":
+				var bs []string
+				for _, b := range op.binds {
+					bs = append(bs, fmt.Sprintf("%q->%d", b.name, b.owner))
+				}
+				d = desc{"op": op.kind, "params": []uint32{op.p.min, op.p.max, op.p.levels}, "bindings": bs, "accepted": ok}
+			}
+			if op.upper {
+				d["upper_case_addresses"] = true
 			}
 			if len(cur.anomalies) > 0 {
 				d["lookup_returned_other_name"] = cur.anomalies
@@ -579,23 +894,118 @@ func TestC15(t *testing.T) {
 				w.Count("ops_" + op.kind + "_accepted")
 			}
 		}
-		term := "CHist " + p.coq() + " " + coqList(mapStr(uni, coqStr)) + " " + coqList(addrIDs) + " " + o0 + " " + coqList(stepTerms)
+		// names bound but invalid under the parameters now in force (frozen: neither modify nor
+		// delete nor the Resolve query accept them)
+		for _, n := range uni {
+			if cur.recs[n] != nil {
+				if nn, err := app.NameKeeper.Normalize(ctx, n); err != nil || nn != n {
+					w15.frozen++
+				}
+			}
+		}
+		// paged walks over the final state: the address with the most names and a random one
+		best := 1
+		for i := range env.addrs {
+			if len(cur.listed[i]) > len(cur.listed[best]) {
+				best = i
+			}
+		}
+		var paged []string
+		for _, ai := range []int{best, 1 + r.Intn(len(env.addrs)-1)} {
+			for _, mode := range []int{0, 1, 2, 3} {
+				limit := uint64(1 + r.Intn(3))
+				pages, tot := env.walk(ctx, env.addrs[ai].String(), limit, mode)
+				paged = append(paged, fmt.Sprintf("(%d%%nat, %d%%nat, %d%%N, %s, %d%%N)", ai, limit, mode, c15Pages(pages), tot))
+				w.Count("paged_walks")
+				if len(pages) > 1 {
+					w.Count("paged_walks_with_several_pages")
+				}
+			}
+		}
+		term := "CHist " + p.coq() + " " + coqBool(allow0) + " " + coqList(mapStr(uni, coqStr)) + " " + coqList(addrIDs) + " " + o0 + " " + coqList(stepTerms) + " " + coqList(paged)
 		w.Add(term, desc{"kind": "history", "params": []uint32{p.min, p.max, p.levels}, "names": uni,
 			"collision_pairs": c15Collisions(uni), "steps": opDescs})
 		w.Count("histories")
 		if len(kinds) >= 3 && nAcc >= 8 {
 			w.Nontrivial("h/" + term)
 		}
+		// export / import round trip of the module's genesis: ExportGenesis of the final state, the
+		// store emptied through DeleteRecord, InitGenesis of what was exported (panics when a stored
+		// name is no longer valid under the exported parameters)
+		{
+			rctx, _ := ctx.CacheContext()
+			gs := app.NameKeeper.ExportGenesis(rctx)
+			for _, rec := range gs.Bindings {
+				_ = app.NameKeeper.DeleteRecord(rctx, rec.Name)
+			}
+			left := 0
+			_ = app.NameKeeper.IterateRecords(rctx, nametypes.NameKeyPrefix, func(nametypes.NameRecord) error { left++; return nil })
+			_ = app.NameKeeper.IterateRecords(rctx, nametypes.AddressKeyPrefix, func(nametypes.NameRecord) error { left++; return nil })
+			if left != 0 {
+				t.Errorf("history %d: %d entries left after deleting every exported record", h, left)
+			}
+			ierr := try(func() error {
+				app.NameKeeper.InitGenesis(rctx, *gs)
+				return nil
+			})
+			same := false
+			if ierr == nil {
+				same = env.observe(t, rctx, uni).term == cur.term
+			}
+			var bs []string
+			for _, b := range gs.Bindings {
+				bs = append(bs, fmt.Sprintf("(%s, %d%%N, %s)", c15Str(b.Name), env.id(b.Address), coqBool(b.Restricted)))
+			}
+			ep := c15Params{gs.Params.MinSegmentLength, gs.Params.MaxSegmentLength, gs.Params.MaxNameLevels}
+			w.Add(fmt.Sprintf("CRoundTrip %s %s %s %s", ep.coq(), coqList(bs), coqBool(ierr == nil), coqBool(same)),
+				desc{"kind": "export_import", "params": []uint32{ep.min, ep.max, ep.levels}, "records": len(gs.Bindings), "import_ok": ierr == nil, "same_lookups": same})
+			w.Count("export_import_round_trips")
+			if ierr != nil {
+				w.Count("export_import_round_trips_panicked")
+			}
+		}
+		// the same account spelled in upper-case bech32 must get the same listing (detector of the
+		// finding repaired by /repo 52091505f: the query compared the request's spelling)
+		{
+			lower, _ := env.walk(ctx, env.addrs[best].String(), 1000, 0)
+			upper, _ := env.walk(ctx, strings.ToUpper(env.addrs[best].String()), 1000, 0)
+			flat := func(pp [][]string) []string {
+				var out []string
+				for _, p := range pp {
+					out = append(out, p...)
+				}
+				sort.Strings(out)
+				return out
+			}
+			lo, up := flat(lower), flat(upper)
+			w.Add("CSpell "+coqList(mapStr(lo, c15Str))+" "+coqList(mapStr(up, c15Str)),
+				desc{"kind": "spelling", "address": env.addrs[best].String(), "lower": lo, "upper": up})
+			w.Count("reverse_lookup_spelling_cases")
+			if len(lo) > 0 {
+				w.Nontrivial("s/" + strings.Join(lo, ","))
+			}
+		}
 	}
-	w.CountN("delete_attempts_signed_by_gov_authority", w15gov)
+	w.CountN("delete_attempts_signed_by_gov_authority", w15.gov)
+	w.CountN("bind_attempts_with_dotted_record_name", w15.dotted)
+	w.CountN("bind_attempts_with_dotted_record_name_implied_parent_exists", w15.dottedImpliedExists)
+	w.CountN("bind_attempts_with_dotted_record_name_implied_parent_restricted_and_foreign", w15.dottedImpliedRestrictedForeign)
+	w.CountN("bind_attempts_under_multi_level_parent", w15.multiLevelParent)
+	w.CountN("delete_accepted_with_existing_sub_names", w15.deleteWithChildren)
+	w.CountN("accepted_ops_with_upper_case_bech32", w15.upper)
+	w.CountN("genesis_imports_accepted", w15.genesisOK)
+	w.CountN("genesis_imports_panicked", w15.genesisPanic)
+	w.CountN("params_updates_accepted", w15.paramsOK)
+	w.CountN("names_bound_but_invalid_under_final_params", w15.frozen)
 	w.CountN("addresses_32_bytes", 2)
+	w.CountN("address_pairs_prefix_related", 1)
 	w.CountN("ops_total", total)
 	w.CountN("ops_accepted", accepted)
 	if total > 0 {
 		w.CountN("ops_accepted_percent", accepted*100/total)
 	}
 
-	// ---------- 2. pair search over a 3-letter alphabet ----------
+	// ---------- 2a. pair search over a 3-letter alphabet ----------
 	{
 		const alpha = "abc"
 		var segs []string
@@ -672,7 +1082,7 @@ func TestC15(t *testing.T) {
 		// every collision whose shape is NOT "same reversed concatenation" is always emitted; of
 		// the others (the known finding) the canonical witness and a sample
 		emit("aa.bbcc", "ccaa.bb")
-		sample := scale(60, 2000)
+		sample := scale(40, 2000)
 		perm := r.Perm(len(collisions))
 		for i, pi := range perm {
 			c := collisions[pi]
@@ -680,13 +1090,128 @@ func TestC15(t *testing.T) {
 				emit(c[0], c[1])
 			}
 		}
-		// non-colliding pairs: a sample, biased to pairs with equal multiset of letters
-		for i := 0; i < scale(300, 20000); i++ {
+		// non-colliding pairs: a sample
+		for i := 0; i < scale(200, 20000); i++ {
 			a, b := all[r.Intn(len(all))], all[r.Intn(len(all))]
 			if a == b {
 				continue
 			}
 			emit(a, b)
+		}
+
+		// ---------- 2b. exhaustive classes over {a,b,1,2}, segments of 2-3 characters, 1-4 segments ----------
+		const alpha4 = "ab12"
+		maxT := scale(8, 9)
+		type cls struct {
+			first string
+			n     int
+			multi bool // holds names with different numbers of segments
+			segs  int
+		}
+		byKey := map[[33]byte]*cls{}
+		byPre := map[string]*cls{}
+		var nNames, mismatches int64
+		var sampleNames []string
+		var rec func(cur string, nseg, tot int)
+		var word func(prefix string, n int, f func(string))
+		word = func(prefix string, n int, f func(string)) {
+			if n == 0 {
+				f(prefix)
+				return
+			}
+			for i := 0; i < len(alpha4); i++ {
+				word(prefix+string(alpha4[i]), n-1, f)
+			}
+		}
+		var mismatchPairs [][2]string
+		rec = func(cur string, nseg, tot int) {
+			if cur != "" {
+				nNames++
+				var k33 [33]byte
+				copy(k33[:], c15Key(cur))
+				pre := c15Revcat(cur)
+				ck, okK := byKey[k33]
+				cp, okP := byPre[pre]
+				if !okK {
+					ck = &cls{first: cur, segs: nseg}
+					byKey[k33] = ck
+				}
+				if !okP {
+					cp = &cls{first: cur, segs: nseg}
+					byPre[pre] = cp
+				}
+				ck.n++
+				cp.n++
+				if ck.segs != nseg {
+					ck.multi = true
+				}
+				// the two partitions must agree: same class representative
+				if ck.first != cp.first {
+					mismatches++
+					if len(mismatchPairs) < 20 {
+						mismatchPairs = append(mismatchPairs, [2]string{cur, ck.first}, [2]string{cur, cp.first})
+					}
+				}
+				if r.Intn(4000) == 0 {
+					sampleNames = append(sampleNames, cur)
+				}
+			}
+			if nseg == 4 {
+				return
+			}
+			for l := 2; l <= 3; l++ {
+				if tot+l > maxT {
+					continue
+				}
+				word("", l, func(s string) {
+					n := s
+					if cur != "" {
+						n = s + "." + cur
+					}
+					rec(n, nseg+1, tot+l)
+				})
+			}
+		}
+		rec("", 0, 0)
+		var classesMulti, biggest int64
+		sizes := map[int]int64{}
+		for _, c := range byKey {
+			sizes[c.n]++
+			if c.n > 1 {
+				classesMulti++
+			}
+			if int64(c.n) > biggest {
+				biggest = int64(c.n)
+			}
+		}
+		w.CountN("enum_names", nNames)
+		w.CountN("enum_classes_by_real_key", int64(len(byKey)))
+		w.CountN("enum_classes_by_reversed_concatenation", int64(len(byPre)))
+		w.CountN("enum_classes_with_several_names", classesMulti)
+		w.CountN("enum_largest_class", biggest)
+		w.CountN("enum_partition_mismatches", mismatches)
+		for sz, n := range sizes {
+			w.CountN(fmt.Sprintf("enum_classes_of_size_%02d", sz), n)
+		}
+		w.Add(fmt.Sprintf("CEnum %d%%N %d%%N %d%%N %d%%N", nNames, len(byKey), len(byPre), mismatches),
+			desc{"kind": "enumeration", "alphabet": alpha4, "names": nNames, "classes_by_key": len(byKey), "classes_by_preimage": len(byPre), "mismatches": mismatches})
+		for _, mp := range mismatchPairs {
+			emit(mp[0], mp[1])
+		}
+		// for a sample of names: the name against its class representative (same key) and
+		// against a neighbour with one character changed (different key)
+		for _, n := range sampleNames {
+			var k33 [33]byte
+			copy(k33[:], c15Key(n))
+			if rep := byKey[k33].first; rep != n {
+				emit(n, rep)
+			}
+			b := []byte(n)
+			i := r.Intn(len(b))
+			if b[i] != '.' {
+				b[i] = alpha4[(strings.IndexByte(alpha4, b[i])+1)%4]
+				emit(n, string(b))
+			}
 		}
 	}
 
@@ -694,14 +1219,18 @@ func TestC15(t *testing.T) {
 	{
 		ctx, _ := baseCtx.CacheContext()
 		uuid := "123e4567-e89b-12d3-a456-426614174000"
+		hex32 := strings.ReplaceAll(uuid, "-", "")
 		fixed := []string{"", " ", ".", "a", "ab", "ab.", ".ab", "a..b", "ab..cd", "AB.cd", " ab . cd ", "ab.c", "a-b", "a-b-c", "-ab", "ab-", "--",
 			"ab_cd", "ab cd", "ab.cd.ef.gh.ij.kl.mn.op.qr.st.uv.wx.yz.ab.cd.ef", "ab.cd.ef.gh.ij.kl.mn.op.qr.st.uv.wx.yz.ab.cd.ef.gh",
 			strings.Repeat("a", 32), strings.Repeat("a", 33), strings.Repeat("a", 33) + ".pb",
 			uuid, uuid + ".pb", strings.ToUpper(uuid) + ".pb", "urn:uuid:" + uuid, "URN:UUID:" + uuid + ".pb", "{" + uuid + "}", "x" + uuid + "y", "{" + uuid + "}.pb",
-			strings.ReplaceAll(uuid, "-", ""), strings.ReplaceAll(uuid, "-", "") + "0", "123e4567-e89b-12d3-a456-42661417400g", "123e4567+e89b-12d3-a456-426614174000",
-			"urn:uuix:" + uuid, "ab\t.cd", "\nab.cd\r", "ab.cd\v", "ab.\fcd", "a1.2b", "0.1", "00.11", "ab.cd ", "ab .cd", "a b.cd", "ab:cd", "ab/cd", "ab.cd!", "ab\x00.cd", "ab\x7f"}
+			hex32, hex32 + ".pb", strings.ToUpper(hex32) + ".pb", hex32 + "0", "123e4567-e89b-12d3-a456-42661417400g", "123e4567+e89b-12d3-a456-426614174000",
+			" " + uuid + " .pb", "(" + uuid + ").pb", "X" + uuid + "Y.pb", " {" + uuid + "} .pb", uuid + "." + hex32, "urn:uuid:" + hex32,
+			"urn:uuix:" + uuid, "ab\t.cd", "\nab.cd\r", "ab.cd\v", "ab.\fcd", "a1.2b", "0.1", "00.11", "ab.cd ", "ab .cd", "a b.cd", "ab:cd", "ab/cd", "ab.cd!", "ab\x00.cd", "ab\x7f",
+			"a-.b-", "-a.-b", "a--b.cd", "ab.-", "ab.--", "ab. - ", "AB-CD.EF", "ab . . cd", "...", "ab.\t.cd", " . ", "ab.cd.", ".ab.cd"}
 		const raws = "abAB1-. \t_:"
 		n := scale(400, 20000)
+		params := []c15Params{defP, {1, 4, 2}, {0, 40, 3}}
 		for i := 0; i < len(fixed)+n; i++ {
 			var raw string
 			if i < len(fixed) {
@@ -712,40 +1241,105 @@ func TestC15(t *testing.T) {
 					raw = c15Seg(r, "abc1-", 1, 5) + "." + c15Seg(r, "abC ", 1, 5)
 				}
 			}
-			for _, p := range []c15Params{defP, {1, 4, 2}} {
-				if p != defP && i%3 != 0 {
+			for pi, p := range params {
+				if pi > 0 && i%3 != pi-1 && i >= len(fixed) {
 					continue
 				}
-				np := kp
-				np.MinSegmentLength, np.MaxSegmentLength, np.MaxNameLevels = p.min, p.max, p.levels
-				app.NameKeeper.SetParams(ctx, np)
-				var nn string
-				err := try(func() error {
-					var e2 error
-					nn, e2 = app.NameKeeper.Normalize(ctx, raw)
-					return e2
-				})
-				_, kerr := nametypes.GetNameKeyPrefix(raw)
-				w.Add(fmt.Sprintf("CNorm %s %s %s %s", p.coq(), c15Str(raw), coqOpt(err == nil, c15Str(nn)), coqBool(kerr == nil)),
-					desc{"kind": "normalize", "raw": raw, "ok": err == nil, "key_ok": kerr == nil})
-				w.Count("normalize_inputs")
-				if err == nil {
-					w.Count("normalize_accepted")
-					if nn != raw {
-						w.Nontrivial("n/" + raw)
-					}
-				}
+				c15EmitNorm(w, app, ctx, kp, p, raw, "CNorm")
 			}
+		}
+		// non-ASCII inputs (valid and invalid UTF-8)
+		fixedU := []string{"ñandú.pb", "ÑANDÚ.pb", "İi.pb", "ii̇.pb", "٣٤.pb", "３４.pb", "aa .pb", " ab.pb", "ab　.cd", "\u0085ab.cd",
+			"Ωmega.pb", "ωmega.pb", "K1.pb", "ǅa.pb", "ß.pb", "é.pb", "É.pb", "\xff\xfe.pb", "ab\xc3.pb", "\xc3\x28.pb", "��.pb",
+			"😀😀.pb", "一二.pb", "ⅷⅷ.pb", "ⅧⅧ.pb", "ab­.pb", "дом.pb", "ДОМ.pb", "straße.pb", "STRASSE.pb", "ǆ.pb", "Ǆ.pb", "ϒa.pb",
+			"aa. ", "aa.  bb ", "\xa0ab.pb", "ab\x85.pb", "é" + uuid + ".pb", "x" + uuid + "é", "é-é.pb", "é--é.pb",
+			"٠١.pb", "۱۲.pb", "१२.pb", "ａｂ.pb", "ＡＢ.pb", "²³.pb", "½½.pb", "ªº.pb"}
+		pool := []string{"a", "b", "A", "1", "-", ".", " ", "é", "É", "ñ", "ß", "İ", "ı", "ω", "Ω", "д", "Д", "٣", "３", " ", " ", "　",
+			"\xff", "\xc3", "\x80", "�", "ǅ", "K", "ⅷ", "一", "😀", "²", "ª"}
+		nU := scale(250, 8000)
+		for i := 0; i < len(fixedU)+nU; i++ {
+			var raw string
+			if i < len(fixedU) {
+				raw = fixedU[i]
+			} else {
+				var sb strings.Builder
+				for k := 0; k < 1+r.Intn(6); k++ {
+					sb.WriteString(pool[r.Intn(len(pool))])
+				}
+				raw = sb.String()
+			}
+			p := params[0]
+			if i%4 == 3 {
+				p = params[1]
+			}
+			c15EmitNorm(w, app, ctx, kp, p, raw, "CNormU")
 		}
 	}
 	w.Flush(t)
 }
 
-// c15Str renders any byte string as a Coq string term (control characters are spelled out).
+func c15EmitNorm(w *CaseWriter, app *simapp.App, ctx sdk.Context, kp nametypes.Params, p c15Params, raw, ctor string) {
+	np := kp
+	np.MinSegmentLength, np.MaxSegmentLength, np.MaxNameLevels = p.min, p.max, p.levels
+	app.NameKeeper.SetParams(ctx, np)
+	var nn, nn2 string
+	err := try(func() error {
+		var e2 error
+		nn, e2 = app.NameKeeper.Normalize(ctx, raw)
+		return e2
+	})
+	var err2 error = fmt.Errorf("not run")
+	if err == nil {
+		err2 = try(func() error {
+			var e2 error
+			nn2, e2 = app.NameKeeper.Normalize(ctx, nn)
+			return e2
+		})
+	}
+	_, kerr := nametypes.GetNameKeyPrefix(raw)
+	w.Add(fmt.Sprintf("%s %s %s %s %s %s", ctor, p.coq(), c15Str(raw), coqOpt(err == nil, c15Str(nn)), coqOpt(err2 == nil, c15Str(nn2)), coqBool(kerr == nil)),
+		map[string]any{"kind": "normalize", "raw": raw, "ok": err == nil, "normalized": nn, "key_ok": kerr == nil})
+	if ctor == "CNorm" {
+		w.Count("normalize_inputs")
+	} else {
+		w.Count("normalize_inputs_non_ascii")
+		if c15Modelled(raw) {
+			w.Count("normalize_inputs_non_ascii_inside_modelled_tables")
+		}
+	}
+	if err == nil {
+		w.Count("normalize_accepted")
+		if nn != raw {
+			w.Nontrivial("n/" + raw)
+		}
+	}
+}
+
+// c15Modelled says whether every rune of s lies in the ranges Name/NameUnicode.v has tables for
+// (statistics only: the Coq side decides for itself).
+func c15Modelled(s string) bool {
+	ranges := [][2]rune{{0, 591}, {880, 1023}, {1024, 1327}, {1632, 1641}, {1776, 1785}, {2406, 2415}, {5760, 5760}, {8192, 8303},
+		{8448, 8591}, {12288, 12288}, {19968, 19983}, {65296, 65370}, {65533, 65533}, {128512, 128527}}
+	for _, c := range s {
+		in := false
+		for _, rg := range ranges {
+			if c >= rg[0] && c <= rg[1] {
+				in = true
+			}
+		}
+		if !in {
+			return false
+		}
+	}
+	return true
+}
+
+// c15Str renders any byte string as a Coq string term (control characters and bytes >= 128 are
+// spelled out).
 func c15Str(s string) string {
 	plain := true
 	for i := 0; i < len(s); i++ {
-		if s[i] < 0x20 || s[i] > 0x7e {
+		if s[i] < 0x20 || s[i] > 0x7e || s[i] == '"' {
 			plain = false
 		}
 	}
